@@ -53,9 +53,10 @@ def base_values(ck, base, lengths, mutable_only=False, item_op=False):
                 out.append(seq_expr(k, n))
         if mutable_only:
             out += ['(10, 11, 12)', "'abc'", "b'abc'"]          # immutable: TypeError expected
-        out += ['L([10, 11, 12])', 'T((10, 11, 12))', "S('abc')", 'None', '{0: 1, -1: 2}', 'Obj(1)']
+        out += ['L([10, 11, 12])', 'T((10, 11, 12))', "S('abc')", 'None', '{0: 1, -1: 2}', 'Obj(1)', 'LGet([10, 11, 12])',
+                'SeqLog(4)']
         if not ck.quick:
-            out += ['LGet([10, 11, 12])', 'SeqLog(4)', "B(b'abc')", 'range(5)', "memoryview(b'abcd')", '{}']
+            out += ["B(b'abc')", 'range(5)', "memoryview(b'abcd')", '{}', 'L([])', 'T(())']
         return out
     for n in lengths:
         out.append(seq_expr(base, n))
@@ -346,6 +347,19 @@ def classify(f, case, exp, got):
             and not (exp[0] == 'exc' and exp[1] == 'OverflowError'):
         # bound >= 2**63 (or < -2**63) reaches a plain Py_ssize_t conversion instead of the clamping slice protocol
         return 'huge-slice-bound-overflow:%s' % f.base
+    if f.op in ('get', 'set', 'del') and f.base == 'object' and f.kind != 'object' and args \
+            and isinstance(args[0], (list, tuple)) and type(args[0]) not in (list, tuple) \
+            and ((ivs and ivs[0] is not None and ivs[0] < 0) or (f.kind == 'const' and f.form.startswith('-'))):
+        # C-integer index on an untyped object that is an instance of a (heap) subclass of list/tuple: the helper adds
+        # len() and calls sq_item/sq_ass_item, whose generic slot calls __getitem__/__setitem__/__delitem__ with the
+        # adjusted index (wrapping a second time, or showing the adjusted index to an override)
+        return 'negative-c-index-prewrapped-on-sequence-subtype:%s' % f.op
+    if f.op == 'set' and f.base == 'bytearray' and f.kind != 'object' and args:
+        v = args[-1]
+        if not (type(v) is int and 0 <= v < 256):
+            # typed bytearray + C index: the assigned value is converted to C `unsigned char` by the generic C-integer
+            # conversion (before the index is checked) instead of by bytearray's own byte check
+            return 'typed-bytearray-setitem-value-as-c-uchar'
     feat = 'huge' if huge else 'non-index' if nonint else 'index-object' if viaobj else 'plain-int'
     same_outcome = (exp[0] == got[0] == 'ok')
     if same_outcome and exp[1] == got[1]:
